@@ -269,7 +269,8 @@ theorem phase1_heads {h : Hist} {m1 : LMap} (h1 : loadPhase1 h = .ok m1) :
 /-- the graph of the phase-1 map, read off the history -/
 theorem phase1_graph {h : Hist} {m1 : LMap} (h1 : loadPhase1 h = .ok m1)
     (hu : (h.map (·.id)).Nodup) :
-    ∃ lk, m1.revs = phase1Revs h lk ∧ (∀ e ∈ lk, e.2 ∈ h.map (·.id)) ∧
+    ∃ lk, mapBranchLabels (h.map (·.id)) (h.filter (fun r => r.labels ≠ [])) [] = .ok lk ∧
+      m1.revs = phase1Revs h lk ∧ (∀ e ∈ lk, e.2 ∈ h.map (·.id)) ∧
       (∀ r ∈ h, ∀ d ∈ r.down ++ r.deps, (lookupKey (h.map (·.id)) lk d).isSome) ∧
       m1.ids = h.map (·.id) ∧
       (∀ r ∈ h, m1.get? r.id = some (p1Rev h lk r)) := by
@@ -279,7 +280,7 @@ theorem phase1_graph {h : Hist} {m1 : LMap} (h1 : loadPhase1 h = .ok m1)
   have hlkv : ∀ e ∈ lk, e.2 ∈ h.map (·.id) :=
     mapBranchLabels_vals (h.map (·.id)) _ [] lk
       (fun r hr => List.mem_map.mpr ⟨r, (List.mem_filter.mp hr).1, rfl⟩) (by simp) hlk
-  refine ⟨lk, hrevs, hlkv, hchk, hids1, ?_⟩
+  refine ⟨lk, hlk, hrevs, hlkv, hchk, hids1, ?_⟩
   intro r hr
   have hmem : p1Rev h lk r ∈ m1.revs := by
     rw [hrevs, phase1Revs_eq]; exact List.mem_map.mpr ⟨r, hr, rfl⟩
@@ -306,7 +307,7 @@ theorem dedupe_nil_iff (l : List String) : dedupe l = [] ↔ l = [] := by
 theorem graphFacts_of_phase1 {h : Hist} {m1 : LMap} (o : LoadOpts) (h1 : loadPhase1 h = .ok m1)
     (hu : (h.map (·.id)).Nodup) (hd : ∀ r ∈ h, ∀ d ∈ r.down, d ∈ h.map (·.id)) :
     GraphFacts (withNorm o m1) := by
-  obtain ⟨lk, hrevs, hlkv, hchk, hids1, hget⟩ := phase1_graph h1 hu
+  obtain ⟨lk, _, hrevs, hlkv, hchk, hids1, hget⟩ := phase1_graph h1 hu
   obtain ⟨hH, hRH, hB, hRB⟩ := phase1_heads h1
   have hk2 := withNorm_keeps o m1
   have hids : (withNorm o m1).ids = m1.ids := ids_mapRevs m1 _ (fun r => (hk2 r).1)
